@@ -311,7 +311,8 @@ def gen_argparse(r):
         if shape == "type-default":
             kws = ["type=%s" % r.choice(["int", "str", "float", "bool"]), "default=%s" % r.choice(["0", "'x'", "1.5", "True", "None"])]
         elif shape == "type-required":
-            kws = ["type=%s" % r.choice(["int", "str", "float"]), "required=True"]
+            # incl. converters written as dotted names (pathlib.Path, os.path.abspath): the parser accepts them or refuses them, it must not return a non-string type
+            kws = ["type=%s" % r.choice(["int", "str", "float", "pathlib.Path", "os.path.abspath", "int", "str"]), "required=True"]
         elif shape.startswith("choices-"):
             ms = r.sample(["'alpha'", "'beta'", "'gamma'", "'delta'"], r.randint(2, 4))
             o, c = {"list": "[]", "tuple": "()", "set": "{}"}[shape.split("-")[1]]
